@@ -325,9 +325,11 @@ ApplyExact(f, args, REG) ==
    Declared parameter types may nest (functions.rs ArgumentType: TypedArray(inner), Union(alternatives), Any):
      "sigconst" (number)   "sigaan" (array[array[number]])   "sigaun" (array[number|string])   "sigaany" (array[any])
    and a signature may be variadic (Signature::new(inputs, Some(type))): every argument beyond the declared ones has the variadic type
-     "sigvar" (string, number...)   "sigvar0" (number...) *)
-SigKinds == {"sigconst", "sigaan", "sigaun", "sigaany", "sigvar", "sigvar0"}
-TyNum == [k |-> "num"]  TyStr == [k |-> "str"]  TyAny == [k |-> "any"]
+     "sigvar" (string, number...)   "sigvar0" (number...)
+   and a union may have the expression-reference type among its members
+     "sigue" (array[any], expref|string)   "sigvue" (number | (expref | null) ...) *)
+SigKinds == {"sigconst", "sigaan", "sigaun", "sigaany", "sigvar", "sigvar0", "sigue", "sigvue"}
+TyNum == [k |-> "num"]  TyStr == [k |-> "str"]  TyAny == [k |-> "any"]  TyExpref == [k |-> "expref"]  TyNull == [k |-> "null"]
 TyArr(of) == [k |-> "arr", of |-> of]
 TyUnion(alts) == [k |-> "union", alts |-> alts]
 CustomSig(kind) == CASE kind = "sigconst" -> TyNum [] kind = "sigaan" -> TyArr(TyArr(TyNum))
@@ -336,10 +338,13 @@ RECURSIVE TFits(_, _)
 TFits(v, ty) == CASE ty.k = "any" -> TRUE
                   [] ty.k = "num" -> v.t = "num"
                   [] ty.k = "str" -> v.t = "str"
+                  [] ty.k = "expref" -> v.t = "expref"
+                  [] ty.k = "null" -> v.t = "null"
                   [] ty.k = "arr" -> v.t = "arr" /\ \A i \in DOMAIN v.a : TFits(v.a[i], ty.of)
                   [] ty.k = "union" -> \E j \in DOMAIN ty.alts : TFits(v, ty.alts[j])
-SigParams(kind) == CASE kind = "sigvar" -> <<TyStr>> [] kind = "sigvar0" -> <<>> [] OTHER -> <<CustomSig(kind)>>
-SigVariadic(kind) == IF kind \in {"sigvar", "sigvar0"} THEN TyNum ELSE [k |-> "none"]
+SigParams(kind) == CASE kind = "sigvar" -> <<TyStr>> [] kind = "sigvar0" -> <<>> [] kind = "sigue" -> <<TyArr(TyAny), TyUnion(<<TyExpref, TyStr>>)>> [] kind = "sigvue" -> <<>>
+                     [] OTHER -> <<CustomSig(kind)>>
+SigVariadic(kind) == IF kind \in {"sigvar", "sigvar0"} THEN TyNum ELSE IF kind = "sigvue" THEN TyUnion(<<TyNum, TyUnion(<<TyExpref, TyNull>>)>>) ELSE [k |-> "none"]
 SigValidate(kind, args) ==
   LET ps == SigParams(kind)  var == SigVariadic(kind) IN
   IF Len(args) < Len(ps) \/ (var.k = "none" /\ Len(args) > Len(ps)) THEN "arity"
